@@ -54,6 +54,7 @@ REORDER = re.compile(r"(Iterator::|Iterator>::)(rev|filter|filter_map|skip|take|
 LAZY = re.compile(r"(Iterator::|Iterator>::)(map|inspect|by_ref|copied|cloned|enumerate|fuse|map_while)$|IntoIterator>::into_iter$")
 # plumbing that hands a value on unchanged (besides references): `?`, clone, deref/borrow of an owning wrapper
 FAITHFUL = re.compile(r"as std::ops::Try>::branch$|as std::clone::Clone>::clone$|as std::ops::Deref>::deref$|as std::borrow::Borrow<.*>>::borrow$|as std::convert::AsRef<.*>>::as_ref$|^std::borrow::Cow::<.*>::(into_owned|to_mut)$|as std::borrow::ToOwned>::to_owned$")
+READ_ONLY = re.compile(r"::(len|is_empty|capacity|iter|as_slice|first|last|get|contains|as_ptr|reserve|reserve_exact|shrink_to_fit)$|as std::ops::Deref>::deref$|as std::clone::Clone>::clone$|as std::convert::AsRef<.*>>::as_ref$|as std::borrow::Borrow<.*>>::borrow$|IntoIterator>::into_iter$")
 EMPTY_CTOR = re.compile(r"Vec::<T>::(new|with_capacity)$|^std::iter::empty$|Default>::default$")
 
 
@@ -299,8 +300,34 @@ def matrix(ctx, roles, u, coll_sites, adaptor_bi, pred_sites=(), name="", cfg=""
 
     lossy = set()
 
-    def classify_receiver(recv):
+    def filled_in_place(w, recv):
+        """What is put into a container that the receiver builds in place (`let mut v = Vec::new(); for c in … { v.push(..) }`):
+        the other operands of every call, on any path of this case (the iterations of a loop included), that is handed
+        the freshly constructed container and is not one of std's read-only accessors.  The collection then is what
+        these calls put into it, as `collect()` of an adaptor chain is what the chain yields."""
+        sites = set()
+        expr_mentions(recv, lambda x: sites.add(x[3]) if x[0] == "call" and x[1] and len(x) > 3 and EMPTY_CTOR.search(x[1].get("path", "")) else False)
+        out, seen = [], set()
+        if not sites:
+            return out
+        for q in w.paths:
+            for ev in q.events:
+                if ev[1] is None or len(ev[2]) < 2 or (ev[3], len(ev[2])) in seen:
+                    continue
+                tgt = strip_refs(ev[2][0])
+                if not (tgt[0] == "call" and len(tgt) > 3 and tgt[3] in sites and tgt[3] != ev[3]):
+                    continue
+                if READ_ONLY.search(ev[1].get("path", "")):
+                    continue
+                seen.add((ev[3], len(ev[2])))
+                out.extend(ev[2][1:])
+        return out
+
+    def classify_receiver(recv, w=None):
         """What the iteration runs over, read off the path-local expression of the iterator."""
+        fill = filled_in_place(w, recv) if w is not None else []
+        if fill:
+            recv = ("agg", {"agg": "fields"}, [recv] + fill)
         calls = []
         expr_mentions(recv, lambda x: calls.append(x) if x[0] == "call" and x[1] else False)
         ext = {c[1]["path"] for c in calls if not c[1].get("local")}
@@ -352,7 +379,7 @@ def matrix(ctx, roles, u, coll_sites, adaptor_bi, pred_sites=(), name="", cfg=""
             ks = set()
             for q in reach:
                 ev = [x for x in q.events if x[3] == adaptor_bi]
-                ks.add(classify_receiver(ev[0][2][0]) if ev and ev[0][2] else "ITER(?)")
+                ks.add(classify_receiver(ev[0][2][0], w) if ev and ev[0][2] else "ITER(?)")
             kind = ks.pop() if len(ks) == 1 else "MIXED(%s)" % ", ".join(sorted(ks))
         else:
             outs = [q for q in w.paths if not q.truncated]
@@ -592,6 +619,33 @@ def verdict_on(facts, w, body, p, tkeys):
     return got
 
 
+def bool_on_path(facts, w, body, p, e):
+    """The boolean an expression stands for on one path: a constant (bool_of), or the very value a switch of the
+    path has decided (`result = verdict; if !result { break }; … Ok(Bool(result))`: on the path that left the loop,
+    `result` is false)."""
+    v = bool_of(facts, e)
+    if v is not None:
+        return v
+    x = strip_refs(e)
+    while x[0] == "agg" and (x[1].get("variant") in ("Ok", "Some") or (x[1].get("adt") == VALUE and x[1].get("variant") == "Bool")) and len(x[2]) == 1:
+        x = strip_refs(x[2][0])
+    neg = False
+    while x[0] == "unop" and x[1] == "Not":
+        neg, x = not neg, strip_refs(x[2])
+    if x[0] in ("const", "agg", "phi"):
+        return None
+    cx = pathsum.canon(x)
+    got = set()
+    for d, truth in switch_facts(w, body, p):
+        d = strip_refs(d)
+        dneg = False
+        while d[0] == "unop" and d[1] == "Not":
+            dneg, d = not dneg, strip_refs(d[2])
+        if pathsum.canon(d) == cx:
+            got.add((truth != dneg) != neg)
+    return got.pop() if len(got) == 1 else None
+
+
 def loop_reading(ctx, roles, name, cfg, root, ps, abi, tkeys, seed_want, decided_want):
     """K4 for per-element code written as a loop: the paths of one iteration from the loop's next()."""
     facts = roles.facts
@@ -619,7 +673,7 @@ def loop_reading(ctx, roles, name, cfg, root, ps, abi, tkeys, seed_want, decided
         bad.append("has a path through the loop body that takes an element and %s without evaluating the predicate for it" % ("goes on" if passed[0].truncated else "returns %s" % show_expr(passed[0].result)[:50]))
     exhaust = [q for q in exhaust if nxt(q) != "Some"]
     for q in exits:
-        tv, rv = verdict_on(facts, w, root, q, tkeys), bool_of(facts, q.result)
+        tv, rv = verdict_on(facts, w, root, q, tkeys), bool_on_path(facts, w, root, q, q.result)
         if tv is None or rv is None:
             unread.append("early exit with verdict %s returning %s" % (tv, show_expr(q.result)[:60]))
         elif not (tv is decided_want and rv is decided_want):
@@ -818,7 +872,14 @@ def analyse(ctx, cfg, facts, raw_facts, is_view):
                     ctx.check("DATA" not in s2.tags and s2.tags, "K5.predicate-sees-element", "%s: the predicate is evaluated against the element, not the outer data (%s)" % (name, cfg),
                               "%s evaluates the predicate against a value with provenance %s" % (name, sorted(s2.tags)), where=sx.where(), fn=sx.body.key, nontrivial=True)
                 elif "RULE#0" in recv:
-                    ctx.check(set(s2.tags) == {"DATA"}, "K5.elements-against-outer-data", "%s: an element written as an expression is evaluated against the outer data (%s)" % (name, cfg),
+                    # The provenance analysis keeps one tag set per local: the fields of a struct that carries the
+                    # per-element state (predicate, outer data, flag) share it.  Where the tags are not the outer data
+                    # alone but include it, the value itself is read: the operator's own `data` parameter, reached
+                    # through field reads of aggregates built in place and closure captures, is the outer data.
+                    clean = set(s2.tags) == {"DATA"}
+                    if not clean and "DATA" in s2.tags and len(sx.term["args"]) == 2:
+                        clean = strip_refs(sx.body.xtrace(sx.term["args"][1])) == ("arg", 1)
+                    ctx.check(clean, "K5.elements-against-outer-data", "%s: an element written as an expression is evaluated against the outer data (%s)" % (name, cfg),
                               "%s evaluates a literal element against a value with provenance %s instead of the outer data" % (name, sorted(s2.tags)), where=sx.where(), fn=sx.body.key, nontrivial=True)
             # ---------------- K4: the walk stops at the first deciding element
             adaptors = []
